@@ -141,3 +141,35 @@ class ModuleState(object):
                     setattr(self.module, k, obj)
             elif type(v) in (dict, list, set):
                 v.clear()
+
+
+class ClassState(object):
+    """The same for class-level containers (dict / list / set attributes of the classes defined in a module): a decode
+    cache or registry kept on a class is hidden state that must not leak from one symbolic execution into the next."""
+
+    def __init__(self, module):
+        self.module = module
+        self.snap = []
+        for cls in self._classes():
+            for k, v in list(vars(cls).items()):
+                if not k.startswith('__') and type(v) in (dict, list, set):
+                    self.snap.append((cls, k, v, type(v)(v)))
+
+    def _classes(self):
+        return [c for c in vars(self.module).values()
+                if isinstance(c, type) and getattr(c, '__module__', None) == self.module.__name__]
+
+    def restore(self):
+        known = set((id(cls), k) for cls, k, _, _ in self.snap)
+        for cls, k, obj, copy in self.snap:
+            if type(obj) is list:
+                obj[:] = copy
+            else:
+                obj.clear()
+                obj.update(copy)
+            if vars(cls).get(k) is not obj:
+                setattr(cls, k, obj)
+        for cls in self._classes():
+            for k, v in list(vars(cls).items()):
+                if not k.startswith('__') and type(v) in (dict, list, set) and (id(cls), k) not in known:
+                    v.clear()
